@@ -6,6 +6,8 @@ REPO = os.environ.get('VERIF_REPO', '/repo')
 if REPO not in sys.path:
     sys.path.insert(0, REPO)
 
+import logging                                      # noqa: E402
+logging.getLogger().setLevel(logging.ERROR)         # the library logs table fall-backs at WARNING
 import pybufrkit                                    # noqa: E402
 from pybufrkit.decoder import Decoder, generate_bufr_message   # noqa: E402
 from pybufrkit.encoder import Encoder               # noqa: E402
